@@ -23,7 +23,8 @@ open Gd Gd.Valve Gd.Faults
 
 /-- one attempt that ends in a timeout-class failure -/
 structure Attempt where
-  /-- challenge rounds of the unit's exchange the server still answers in this attempt -/
+  /-- challenge rounds of the unit's exchange the server still answers in this attempt (a number beyond the rounds the
+  exchange has means: all of them) -/
   answered : Nat
   /-- `false`: then the server is silent; `true`: then the client's send fails -/
   sendFault : Bool
